@@ -29,15 +29,14 @@ LEVEL_TEXT = ("Lean theorems (every width, every value, no bound): the model of 
               "OverflowError escape; a total classification valid(dtype, length, value) (allowed length per dtype, integer range, digit strings, bytes/bits size, bool "
               "literal, float 16/32/64, variable-length codes without a length) such that Dtype.build, token strings, pack, name-with-length property assignment and Array "
               "element assignment, each transcribed with the validation it really performs, succeed with exactly encode(dtype, length, value) when valid and raise ValueError "
-              "otherwise (constructor keyword and name-with-length keyword included); every success has exactly length*multiplier bits; plain property assignment agrees with "
-              "the classification at the object's own length outside the named deviation region (decided witnesses inside); windows over bytes / bitarray / BytesIO / file sources "
-              "succeed iff 0 <= offset, 0 <= length, offset+length <= n on the regions where the code is right (including the BytesIO byte/bit arithmetic), with decided "
-              "witnesses of the deviations; a rejected property or Array element assignment leaves the object unchanged and a successful Array assignment changes only that item. "
+              "otherwise (constructor keyword and name-with-length keyword included); every success has exactly length*multiplier bits; plain property assignment is the same "
+              "classification at the object's own length; windows over bytes / bitarray / BytesIO / file sources succeed iff 0 <= offset, 0 <= length, offset+length <= n, for every "
+              "offset and length incl. negative and None (including the BytesIO byte/bit arithmetic), with exactly those bits; a rejected property or Array element assignment leaves the object unchanged and a successful Array assignment changes only that item. "
               "Correspondence: every dtype and alias x lengths -1..130, 256, 1000 x values just inside/outside every limit x eight creation routes x four classes, "
               "malformed digit strings and numerals, stated-length/value mismatches, property and Array element assignment, windows over 0-9 byte sources with "
               "offset, length in [-2, n+9] or None for bytes=, bitarray=, BytesIO, file by name and by handle.")
-LEVEL_NOTE = ("PARTIAL where the pinned tree deviates (3 known findings, each with a decided Lean witness and a proposed fix): plain property assignment of an endian integer "
-              "on a non-whole-byte object; negative offset/length for bytes/bitarray/BytesIO/file windows; offset beyond the data for bytes/BytesIO (no length) and files (length 0). Trusted: Lean kernel (+propext, Classical.choice, Quot.sound); bitarray int2ba/hex2ba/base2ba/frombytes/"
+LEVEL_NOTE = ("Full strength on the current tree: the five deviations this check found (keyword route ignoring length=, empty file, endian property on a non-whole-byte object, "
+              "negative offset/length, offset beyond the data) were fixed in /repo (b88b583, a177cac, bf99409, dbe55ac, bcebbd6) and are listed as fixed findings whose witnesses are re-run on every check. Trusted: Lean kernel (+propext, Classical.choice, Quot.sound); bitarray int2ba/hex2ba/base2ba/frombytes/"
               "tobytes, Python slicing, divmod, struct and mmap modelled by their documented meaning; int()/float() string parsing, the token regexes and the float codecs are not "
               "modelled (numbers cross the wire as numbers, 8/6/4-bit float values as their codes); dtype table transcribed by hand and compared with the live register on every "
               "run (table lines); transcription of the Python tied by the differential run only.")
@@ -551,13 +550,14 @@ def oracle(line: str, out: str, extra: dict):
             return f"assignment {f[4]} = {vs}: object now has {len(got)} bits, not {FXK[m]}"
         return None
     if op == "arr":
-        m, n, data, key, vs = f[2], int(f[4]), unwire(f[5]), int(f[6]), f[7]
+        m, nitems, data, key, vs = f[2], int(f[4]), unwire(f[5]), int(f[6]), f[7]
+        n = nitems * (8 if m == "bytes" else 1)          # bits per item
         count = len(data) // n
         k = key + count if key < 0 else key
         if k < 0 or k >= count:
             exp = "err IndexError " + wire(data)
             return None if out == exp else f"Array index {key} of {count}: expected {exp}, got {out}"
-        valid, bits = ref(m, n, vs)
+        valid, bits = ref(m, nitems, vs)
         if not valid:
             exp = "err ValueError " + wire(data)
             if out == exp:
@@ -584,46 +584,6 @@ def oracle(line: str, out: str, extra: dict):
             return "the source bitarray was changed"
         return None
     return "unknown op"
-
-
-# ------------------------------------------------------------------------------------------------ known-deviation regions
-def r_prop_endian(line: str) -> bool:
-    f = line.split(SEP)
-    return f[1] == "asg" and f[3] in ENDIAN and optlen(f[5]) is None and len(unwire(f[6])) % 8 != 0
-
-
-def r_win_negative(line: str) -> bool:
-    f = line.split(SEP)
-    if f[1] != "win":
-        return False
-    off, ln = optlen(f[5]), optlen(f[6])
-    return (off is not None and off < 0) or (ln is not None and ln < 0)
-
-
-def r_win_beyond(line: str) -> bool:
-    f = line.split(SEP)
-    if f[1] != "win":
-        return False
-    off = optlen(f[5])
-    return off is not None and off > len(data_bits(f[4]))
-
-
-REGIONS = {
-    "prop_endian_not_whole_bytes": r_prop_endian,
-    "window_negative": r_win_negative,
-    "window_offset_beyond": r_win_beyond,
-}
-
-
-def compare(out: str, model_out: str, line: str) -> bool:
-    """IMPL ≍ MODEL.  Inside a known-deviation region the model transcribes the deviant behaviour of the pinned
-    tree; there the implementation may instead already behave as the property demands (the proposed fix was
-    applied): that is agreement with the SPEC layer, not a disagreement. Anything else is compared literally."""
-    if out == model_out:
-        return True
-    if any(pred(line) for pred in REGIONS.values()):
-        return oracle(line, out, {}) is None
-    return False
 
 
 def nontrivial(line):
@@ -813,7 +773,7 @@ def gen(rng, tier):
             for i in int_boundaries(ln):
                 yield asg_line(rot.pick(MUTABLE), rot.pick(NAMES_OF[m]), ln, cur, int_value(rot, i))
     for m in FLTK + BFLK:
-        for c in (0, 1, 8, 15, 16, 17, 31, 32, 33, 63, 64, 65):
+        for c in (0, 1, 8, 15, 16, 17, 24, 31, 32, 33, 48, 63, 64, 65, 80, 128, 256):
             yield asg_line(rot.pick(MUTABLE), rot.pick(NAMES_OF[m]), None, rand_bits(rng, c), fv(rot.pick(fvals)))
             yield asg_line(rot.pick(MUTABLE), rot.pick(NAMES_OF[m]), None, rand_bits(rng, c), sx("abc"))
         for ln in (-1, 0, 8, 15, 16, 17, 32, 33, 64, 65, 128):
@@ -872,6 +832,10 @@ def gen(rng, tier):
         yield arr_line(m, 16, rand_bits(rng, 48), 1, fv(1.5))
     for vs in bvals:
         yield arr_line("bool", 1, rand_bits(rng, 5), 2, vs)
+    for n in (1, 2, 3):
+        for k in (0, n - 1, n, n + 1):
+            yield arr_line("bytes", n, rand_bits(rng, 8 * n * 3 + rot.pick([0, 3])), rot.pick([0, 1, 2, -1]),
+                           "x" + bytes(rng.getrandbits(8) for _ in range(k)).hex())
     for name in sorted(MNAME):
         if MNAME[name] in FXK:
             yield arr_line(name, FXK[MNAME[name]], rand_bits(rng, 3 * FXK[MNAME[name]]), 1, fv(1.0, "G"))
